@@ -211,10 +211,20 @@ func (s *Scanner) handleNATEntries(key KeyInterface, val ValueInterface, rev_ts 
 		// If reverse key is not present in the conntrack map,
 		// timestamp returned from the scanner will match the
 		// same as that of entry's ts. Just go ahead with deletion.
+		//
+		// The timestamps also match when the reverse entry exists and the
+		// last packet went through the forward entry (the dataplane stamps
+		// both entries with the same time). Only take the shortcut if the
+		// reverse entry is really missing (or is not a reverse entry);
+		// otherwise pair the entries up as usual so that the cleaner
+		// checks the reverse entry's timestamp before deleting either.
 		if ts == rev_ts {
-			dummy := s.versionHelper.dummyKey()
-			s.updateCleanupMap(key, dummy, ts, rev_ts)
-			return
+			revVal, err := s.get(revKey)
+			if (err != nil && maps.IsNotExists(err)) || (err == nil && revVal.Type() != TypeNATReverse) {
+				dummy := s.versionHelper.dummyKey()
+				s.updateCleanupMap(key, dummy, ts, rev_ts)
+				return
+			}
 		}
 		_, ok := s.revNATKeyToFwdNATInfo[revKey]
 		if !ok {
